@@ -26,6 +26,9 @@ def main():
     if tot['pass'] < 20000 or tot['fail']:
         return 1
     build_w2c2('plain')
+    import mc_selftest
+    if mc_selftest.main() != 0:
+        return 1
     print('setup ok')
     return 0
 
